@@ -161,6 +161,36 @@ def scenarios(seed):
         sub('enc', at='L'), sub('enc', at='F'), sub('enc', 4, True, 'L'),
         LC, pub('enc', [V(8, 'short'), V(9, 'long'), V(10, 'long')], 'b2b', [2]), sub('enc', at='F'), sub('enc', at='L'),
         {'a': 'Tamper', 'r': 'F', 'j': 2, 'reg': 'CT'}, sub('enc', at='F'), sub('enc', at='L')]})
+    # 10. how the metadata comes back: a snapshot of the metadata is persisted, the server restarts FROM THE SNAPSHOT
+    # (not by replaying the CREATE entry) - same key, changed key, paused before / after the snapshot, two snapshots;
+    # a RUNNING server installs a snapshot (all partition objects rebuilt from it)
+    SNAP, INST = {'a': 'Snapshot', 'r': 'a'}, {'a': 'Install', 'r': 'a'}
+    R = []
+    R.append(({'wrap': True}, [
+        pub('enc', [V(1, 'long'), V(2, 'short'), V(3, 'empty')], 'b2b'), pub('plain', [V(4, 'long')], 'api'), SNAP, {'a': 'Restart'},
+        sub('enc'), sub('plain'), pub('enc', [V(5, 'long'), V(6, 'long')], 'gap'), pub('enc', [V(7, 'long'), V(8, 'short')], 'b2b', [1]),
+        pub('plain', [V(9, 'long')], 'api'), sub('enc'), sub('enc', 4, True), sub('plain')]))
+    R.append(({'wrap': False}, [
+        pub('enc', [V(1, 'long'), V(2, 'long')], 'b2b'), SNAP, {'a': 'SetEnv', 'k': 'k2'}, {'a': 'Restart'}, sub('enc'),
+        pub('enc', [V(3, 'long')], 'api'), sub('enc', 2), sub('enc'), SNAP, {'a': 'SetEnv', 'k': 'k1'}, {'a': 'Restart'},
+        sub('enc'), sub('enc', 2), pub('enc', [V(4, 'short'), V(5, 'long')], 'gap'), sub('enc', 3), sub('enc', 4, True)]))
+    R.append(({'wrap': True}, [
+        pub('enc', [V(1, 'long')], 'api'), {'a': 'Pause', 's': 'enc'}, SNAP, {'a': 'Restart'}, {'a': 'Resume', 's': 'enc'},
+        pub('enc', [V(2, 'long'), V(3, 'long')], 'b2b'), sub('enc'), SNAP, {'a': 'Pause', 's': 'enc'}, {'a': 'Restart'},
+        {'a': 'Resume', 's': 'enc'}, pub('enc', [V(4, 'long')], 'api', [1]), pub('enc', [V(5, 'long')], 'api'), sub('enc'), sub('enc', 3, True)]))
+    R.append(({'wrap': True}, [
+        pub('enc', [V(1, 'long'), V(2, 'short')], 'b2b'), pub('plain', [V(3, 'long')], 'api'), INST,
+        pub('enc', [V(4, 'long'), V(5, 'long'), V(6, 'empty')], 'b2b', [2]), sub('enc'), sub('plain'), pub('plain', [V(7, 'long')], 'api'),
+        {'a': 'SetEnv', 'k': 'k2'}, INST, sub('enc'), pub('enc', [V(8, 'long')], 'gap'), sub('enc', 4), sub('enc', 4, True), sub('plain')]))
+    for n, (c, steps) in enumerate(R):
+        out.append({'id': 9400 + n, 'cfg': dict(SERVER_CFGS[0], seed=seed, **c), 'steps': steps})
+    out.append({'id': 9410, 'cfg': dict(SERVER_CFGS[1], seed=seed, wrap=True), 'steps': R[0][1]})     # encrypted by the server configuration
+    out.append({'id': 9411, 'cfg': dict(SERVER_CFGS[1], seed=seed, wrap=True), 'steps': R[3][1]})
+    IF, IL = {'a': 'Install', 'r': 'F'}, {'a': 'Install', 'r': 'L'}
+    out.append({'id': 9302, 'cfg': dict(CLUSTER_CFG, seed=seed, wrap=True), 'steps': [
+        pub('enc', [V(1, 'long'), V(2, 'short')], 'b2b'), pub('plain', [V(3, 'long')], 'api'), IF, sub('enc', at='F'), sub('plain', at='F'),
+        LC, pub('enc', [V(4, 'long'), V(5, 'long')], 'gap', [2]), sub('enc', at='L'), sub('enc', at='F'),
+        IL, pub('enc', [V(6, 'long')], 'api'), pub('plain', [V(7, 'short')], 'api'), sub('enc', at='L'), sub('enc', 3, True, 'F'), sub('plain', at='L')]})
     out.append({'id': 9301, 'cfg': dict(CLUSTER_CFG, seed=seed, wrap=False), 'steps': [
         pub('enc', [V(1, 'long'), V(2, 'long')], 'b2b'), {'a': 'LeaderChange', 's': 'plain'}, pub('plain', [V(3, 'long'), V(4, 'empty')], 'gap'),
         sub('plain', at='F'), sub('plain', at='L'),
@@ -196,7 +226,7 @@ def decorate(sims, seed, rng, cluster=False, first_id=1):
                 wrap = wrap or bool(a['fails'])
             if a['a'] == 'Tamper':
                 a['reg'] = rng.choice(['KS', 'WK', 'NONCE', 'CT', 'TAG'])
-            if cluster and a['a'] in ('Subscribe', 'Tamper'):
+            if cluster and a['a'] in ('Subscribe', 'Tamper', 'Snapshot', 'Install'):
                 # which server leads is decided by the cluster: the model's replica is kept as a ROLE
                 # (the replica that leads / follows the partition at that point of the behaviour)
                 lead = core.tlaval.state_var(st['body'], 'lead')
@@ -207,6 +237,64 @@ def decorate(sims, seed, rng, cluster=False, first_id=1):
             c = CLUSTER_CFG if cluster else (SERVER_CFGS[0] if rng.random() < 0.75 else rng.choice(SERVER_CFGS[1:]))
             out.append({'id': first_id + n, 'cfg': dict(c, seed=seed, wrap=wrap or rng.random() < 0.5), 'steps': steps})
     out.sort(key=lambda b: (b['cfg']['replicas'], b['cfg']['batchMax'], b['cfg']['encby']))   # one cluster per configuration
+    return out
+
+
+def features(steps):
+    """situation features of a behaviour: HOW the partition objects in use were (re)built - at creation, by a
+    resume, by a restart that replays the Raft log, by a restart from a snapshot, by a snapshot installed on the
+    running server - x what is then done with the encrypted stream (publish / subscribe), x the key changed or not"""
+    out = set()
+    how, snapped, keychg = 'created', False, False
+    for s in steps:
+        a = s['a']
+        if a == 'Snapshot':
+            snapped = True
+        elif a == 'SetEnv':
+            keychg = True
+        elif a == 'Restart':
+            how, keychg = ('restart-snapshot' if snapped else 'restart-replay') + ('+key' if keychg else ''), False
+        elif a == 'Install':
+            how, keychg, snapped = 'install' + ('+key' if keychg else ''), False, True
+        elif a == 'Resume' and s.get('s') == 'enc':
+            how, keychg = how.split('/')[0] + '/resume' + ('+key' if keychg else ''), False
+        elif a in ('Publish', 'Subscribe') and s.get('s') == 'enc':
+            out.add('%s>%s' % (how, a))
+    return out
+
+
+def select(pool, want, per_feature=2):
+    """situation-guided selection (GUIDE.md 9.1): from a pool of simulated behaviours those that cover every
+    feature `per_feature` times first, the rest in the order TLC drew them"""
+    count, chosen, rest = {}, [], []
+    for b in pool:
+        f = features(b['steps'])
+        if any(count.get(x, 0) < per_feature for x in f if not x.startswith('created')):
+            chosen.append(b)
+            for x in f:
+                count[x] = count.get(x, 0) + 1
+        else:
+            rest.append(b)
+    return (chosen + rest)[:max(want, 0)] if len(chosen) <= want else chosen[:want]
+
+
+def variant_behaviours(seed, rng):
+    """defective variants of single model decisions as generators of directed scenarios (GUIDE.md 9.5): the model
+    in which a metadata snapshot loses the encryption setting violates C17_NoPlaintext / C17_NoGarbage; TLC's
+    counterexamples are behaviours in which exactly that decision matters, and are replayed on the real code"""
+    out = []
+    for n, (cfg, cluster) in enumerate([('MC_Encryption_snapdrop.cfg', False), ('MC_Encryption_snapdrop_sub.cfg', False),
+                                        ('MC_Encryption_snapdrop_install.cfg', True), ('MC_Encryption_snapdrop_install_sub.cfg', True)]):
+        names, beh = core.tlc_counterexample('MC_Encryption.tla', cfg, workers=min(core.NCPU, 4), timeout=600)
+        if not names or not beh:
+            raise core.Inconclusive('the defective variant %s has no counterexample: the model does not depend on the decision' % cfg)
+        d = decorate([beh], seed, rng, cluster=cluster, first_id=9500 + n)
+        for b in d:
+            # what follows the rebuilt partition: one more publish and a subscriber at every replica
+            b['steps'] = (b['steps'] + [pub('enc', [V(90, 'long'), V(91, 'short')], 'b2b')]
+                          + [sub('enc', 0, False, x) for x in (['L', 'F'] if cluster else ['a'])])
+            b['variant'] = cfg
+        out += d
     return out
 
 
@@ -349,7 +437,7 @@ def nontrivial_beh(b):
     """a behaviour that stores something in the encrypted stream and reads it back or looks at it after a key
     change / tampering"""
     acts = [s['a'] for s in b['steps']]
-    return any(s['a'] == 'Publish' and s['s'] == 'enc' for s in b['steps']) and ('Subscribe' in acts or 'Tamper' in acts or 'Restart' in acts)
+    return any(s['a'] == 'Publish' and s['s'] == 'enc' for s in b['steps']) and ('Subscribe' in acts or 'Tamper' in acts or 'Restart' in acts or 'Install' in acts)
 
 
 def run(rep, tier, seed, replay):
@@ -390,9 +478,11 @@ def run(rep, tier, seed, replay):
                  'mklens': cfg_set(T['mc'], 'MKLens'), 'mk': T['mk']}
         ncases, nstrings, distinct, sample, nvalues = run_codec(rep, d, gocfg, T['trace'], stats)
         # 3. behaviours on a live server
-        sims = core.tlc_simulate('MC_Encryption.tla', T['sim'], T['sims'], T['depth'], seed)
-        csims = core.tlc_simulate('MC_Encryption.tla', T['csim'], T['csims'], T['depth'], seed)
-        behaviours = scenarios(seed) + decorate(sims, seed, rng) + decorate(csims, seed, rng, cluster=True, first_id=5001)
+        # a pool several times larger than what is executed; the subset that covers the situations is replayed
+        sims = core.tlc_simulate('MC_Encryption.tla', T['sim'], 4 * T['sims'], T['depth'], seed)
+        csims = core.tlc_simulate('MC_Encryption.tla', T['csim'], 3 * T['csims'], T['depth'], seed)
+        chosen = select(decorate(sims, seed, rng), T['sims']) + select(decorate(csims, seed, rng, cluster=True, first_id=5001), T['csims'])
+        behaviours = scenarios(seed) + variant_behaviours(seed, rng) + chosen
         behaviours.sort(key=lambda b: (b['cfg']['replicas'], b['cfg']['batchMax'], b['cfg']['encby']))
         lines = run_server(rep, d, behaviours, T['trace'], stats)
     sites = stats.get('seal_sites', {})
@@ -412,6 +502,11 @@ def run(rep, tier, seed, replay):
     rep.cov['server_values_delivered'] = stats.get('delivered', 0)
     rep.cov['server_seal_sites'] = sites
     rep.cov['server_process_deaths'] = stats.get('server_crashes', 0)
+    feats = {}
+    for b in behaviours:
+        for x in features(b['steps']):
+            feats[x] = feats.get(x, 0) + 1
+    rep.cov['server_situations'] = feats      # how the partition objects were (re)built > what was done with the encrypted stream
     rep.cov['distinct_nontrivial'] = len(distinct) + len({core.sha(b['steps']) for b in behaviours if nontrivial_beh(b)})
     rep.cov['rule'] = ('codec: every case of Encryption!Cases(n) for every configured value length x filling x master key '
                        'length, each concretised for every byte position of its region; non-trivial = the stored form is '
